@@ -13,8 +13,7 @@ def regen(ctx):
 COQ_TARGETS = ["props/C12.vo", "theories/Quad/Corr.vo"]
 TRUSTED = ["correspondence harness harness/c12_impl.py + theories/Quad/Corr.v (exact rational diff inside Coq)",
            "NumPy float64 arithmetic = IEEE binary64 (model computes in exact rationals; 1 ulp allowed on 0.5*(1+c))"]
-ASSUMPTIONS = ["The perturbation step from Gauss-moment error to a single tolerance on the Duffy rules is not proved",
-               "Sauter-Schwab identity proved for total degree <= 8 only (computation bound)",
+ASSUMPTIONS = ["Sauter-Schwab identity / Duffy exactness proved for total degree <= 8 only (computation bound), to 1e-8",
                "Convergence on 1/|x-y| is exercised by the search on the implementation, not proved"]
 
 
@@ -136,7 +135,7 @@ META = {
                   "identity for all monomials of degree <= 8, remap placement for all 6+3 cases and all points. "
                   "Convergence on 1/|x-y| is only exercised on the implementation by the search.",
     "level_note": "Trusted: Coq kernel + vm_compute + primitive int63 (Bignums); translators/tables.py (AST shape match, "
-                  "fails closed); the correspondence harness; IEEE arithmetic of NumPy. Not proved: perturbation bound "
-                  "combining Gauss-moment error with the exact identity; identity above degree 8; 1/r convergence.",
+                  "fails closed); the correspondence harness; IEEE arithmetic of NumPy. Not proved: Duffy exactness "
+                  "above total degree 8; 1/r convergence.",
     "design_ref": "DESIGN.md §7 C12",
 }
